@@ -2977,7 +2977,7 @@ func (self *TextServerProtocol) commandHandlerScanCommand(_ *TextServerProtocol,
 			return self.stream.WriteBytes(self.parser.BuildResponse(false, err.Error(), nil))
 		}
 		offset = int(v)
-		for i := 2; i < len(args); i += 2 {
+		for i := 2; i+1 < len(args); i += 2 {
 			switch strings.ToUpper(args[i]) {
 			case "MATCH":
 				r, cerr := regexp.Compile(strings.ReplaceAll(args[i+1], "*", ".*"))
